@@ -60,10 +60,20 @@ def NameCase.ofStr (s : Str) : Option NameCase :=
   | "mixedPascalCase" => some .mixedPascal
   | _ => none
 
-/-- `text.original_case`: `re.sub(r"\W", "", v)`, then only the characters `c` with
-`f"_{c}".isidentifier()` are kept, then `re.sub(r"^[^a-zA-Z_]+", "", v)` -/
-def originalCase (u : UEnv) (v : Str) : Str :=
+/-- `re.sub(r"^__+", "_", v)`: a run of two or more leading underscores becomes one -/
+def collapseLead (v : Str) : Str :=
+  match v with
+  | a :: b :: rest => if a = '_' ∧ b = '_' then '_' :: rest.dropWhile (· = '_') else v
+  | _ => v
+
+/-- `text.original_case` up to its last statement: `re.sub(r"\W", "", v)`, then only the characters
+`c` with `f"_{c}".isidentifier()` are kept, then `re.sub(r"^[^a-zA-Z_]+", "", v)` -/
+def originalCore (u : UEnv) (v : Str) : Str :=
   ((v.filter u.isWord).filter u.isXidContinue).dropWhile (fun c => !(isAsciiAlpha c || c = '_'))
+
+/-- `text.original_case`: … and two or more leading underscores are collapsed to one (such names
+are mangled inside class bodies) -/
+def originalCase (u : UEnv) (v : Str) : Str := collapseLead (originalCore u v)
 
 def pascalCase (v : Str) : Str := ((splitWords v).map titleA).flatten
 
